@@ -41,7 +41,8 @@ EmptyCfg == [budget |-> 0, maxiter |-> 0, ktol |-> 0, ntry |-> 0, nfinal |-> 0,
              accel |-> FALSE, accelsteps |-> 0, completepoll |-> FALSE,
              skippoll |-> FALSE, locked |-> FALSE, gnum |-> 0, gmult |-> 0,
              kcap |-> 0, expand |-> 0, incr |-> 0, stalliters |-> 0, k0 |-> 0,
-             pow2 |-> TRUE, funevalstart |-> 0, minrefit |-> 0, sloppy |-> TRUE]
+             pow2 |-> TRUE, funevalstart |-> 0, minrefit |-> 0, sloppy |-> TRUE,
+             removeafter |-> 1, sfdefault |-> TRUE]
 
 NoStep == [kind |-> "none", nev |-> 0, dirs |-> {}, rem |-> {}, kb |-> 0,
            hasdirs |-> FALSE]
@@ -275,10 +276,12 @@ TSearchEnd ==
         \cup Chk((Det /\ s.noise = "det" /\ DefPolicy) => Ev.incyR = s.minY, "C04.incumbent_is_min")
         \cup Chk(Ev.incuid \in Uids, "C19.hist_x_evaluated")
         \* beyond the listed properties: search scale factor dynamics
-        \cup Chk(Ev.sf2 # 9999 /\ Ev.sf2b # 9999 /\
-                 Ev.sf2 = NextSearchFactor(Ev.sf2b,
-                            IF succ THEN "success" ELSE IF moved THEN "incremental" ELSE "failure",
-                            s.sc + 1, s.ntry),
+        \* (stated for the default factors sqrt(2), 2, sqrt(1/2) of options['search_scale_*'])
+        \cup Chk(s.cfg.sfdefault =>
+                   (Ev.sf2 # 9999 /\ Ev.sf2b # 9999 /\
+                    Ev.sf2 = NextSearchFactor(Ev.sf2b,
+                               IF succ THEN "success" ELSE IF moved THEN "incremental" ELSE "failure",
+                               s.sc + 1, s.ntry)),
                  "EXT.search_factor_rule"))
 
 (* ---- search/poll alternation is applied when the poll begins, or at the *)
@@ -505,7 +508,7 @@ TFitAttempt ==
          retry == Ev.rfit >= 0 /\ Ev.rfit = p.rfit /\ Ev.rtry >= 1
          maxdrop == 1 + (p.lenX + 19) \div 20
          dropped == p.lenX - Ev.lenX
-         dropOK == IF p.rtry <= 0 THEN dropped = 0          \* remove_points_after_tries = 1
+         dropOK == IF p.rtry <= s.cfg.removeafter - 1 THEN dropped = 0   \* options['remove_points_after_tries']
                    ELSE IF p.lenX >= 2 THEN dropped >= 1 /\ dropped <= maxdrop /\ Ev.lenX >= 1
                    ELSE dropped = 0
      IN Step([s EXCEPT !.fit = [rfit |-> Ev.rfit, rtry |-> Ev.rtry, lenX |-> Ev.lenX,
